@@ -1,6 +1,6 @@
 (* C11 — rule management is coherent over any history, including failed calls.
    Only statements and [exact]; proofs live in Lemmas/. *)
-From MD Require Import Base.Py Model.Ruler Lemmas.RulerCoherent Lemmas.RulerSets.
+From MD Require Import Base.Py Model.Ruler Lemmas.RulerCoherent Lemmas.RulerSets Lemmas.RulerOrder.
 
 (* After any finite sequence of Ruler operations (valid or unknown names,
    succeeding or raising), what getRules hands to the parser for ANY chain is
@@ -80,6 +80,59 @@ Theorem C11_unknown_ref_noop :
     end -> step r o = (r, Raise KeyError).
 Proof. exact @unknown_ref_noop. Qed.
 Print Assumptions C11_unknown_ref_noop.
+
+(* registration order: where before / after / at / push put a rule.  The
+   reference is resolved to the FIRST rule of that name (names may repeat);
+   every existing rule keeps its place, flag, function and chains. *)
+Theorem C11_before_order :
+  forall (F : Type) (r : ruler F) ref name fn alt i,
+    find (rules r) ref = Some i ->
+    exists a x b,
+      rules r = a ++ x :: b /\ rname x = ref /\ (forall y, In y a -> rname y <> ref) /\
+      step r (OpBefore ref name fn alt) =
+        (mkRuler (a ++ mkRule name true fn alt :: x :: b) None, Ok ONone).
+Proof. exact @before_order. Qed.
+Print Assumptions C11_before_order.
+
+Theorem C11_after_order :
+  forall (F : Type) (r : ruler F) ref name fn alt i,
+    find (rules r) ref = Some i ->
+    exists a x b,
+      rules r = a ++ x :: b /\ rname x = ref /\ (forall y, In y a -> rname y <> ref) /\
+      step r (OpAfter ref name fn alt) =
+        (mkRuler (a ++ x :: mkRule name true fn alt :: b) None, Ok ONone).
+Proof. exact @after_order. Qed.
+Print Assumptions C11_after_order.
+
+Theorem C11_at_order :
+  forall (F : Type) (r : ruler F) name fn alt i,
+    find (rules r) name = Some i ->
+    exists a x b,
+      rules r = a ++ x :: b /\ rname x = name /\ (forall y, In y a -> rname y <> name) /\
+      step r (OpAt name fn alt) =
+        (mkRuler (a ++ mkRule name (renabled x) fn alt :: b) None, Ok ONone).
+Proof. exact @at_order. Qed.
+Print Assumptions C11_at_order.
+
+Theorem C11_push_order :
+  forall (F : Type) (r : ruler F) name fn alt,
+    step r (OpPush name fn alt) =
+      (mkRuler (rules r ++ [mkRule name true fn alt]) None, Ok ONone).
+Proof. exact @push_order. Qed.
+Print Assumptions C11_push_order.
+
+(* ... and what the parser then applies for any chain: the old chain with the
+   new function spliced in at the corresponding place *)
+Theorem C11_before_applied :
+  forall (F : Type) (r : ruler F) ref name fn alt i c,
+    find (rules r) ref = Some i ->
+    exists a b,
+      rules r = a ++ b /\
+      compile_chain (rules (fst (step r (OpBefore ref name fn alt)))) c =
+        compile_chain a c ++ (if in_chain c (mkRule name true fn alt) then [fn] else [])
+                          ++ compile_chain b c.
+Proof. exact @before_applied. Qed.
+Print Assumptions C11_before_applied.
 
 (* the code before the repair (cache invalidated only on success) is refuted *)
 Theorem C11_legacy_refuted :
